@@ -260,7 +260,18 @@ def run_frozen(spec, rec, Integration, PhiManip, Numerics, tap):
         log = RunLog(rec, site, tags)
         tap.subs[:] = [log]
         tap.grids = None
-        ok, out = rec.noraise("driver-returns", lambda: f(phi0.copy(), xx, T, **kw2), site=site, tags=tags)
+        # the density is a value: its memory layout (C order, Fortran order, a strided view) is not part of it
+        layout = ["C", "F", "strided"][(ci + spec["b"]) % 3]
+        if layout == "F":
+            phi_in = np.asfortranarray(phi0)
+        elif layout == "strided":
+            big = np.zeros(tuple(2 * s for s in phi0.shape))
+            phi_in = big[(slice(None, None, 2),) * nd]
+            phi_in[...] = phi0
+        else:
+            phi_in = phi0.copy()
+        tags["layout"] = layout
+        ok, out = rec.noraise("driver-returns", lambda: f(phi_in, xx, T, **kw2), site=site, tags=tags)
         tap.subs[:] = []
         if not ok:
             continue
